@@ -4,6 +4,7 @@ Boundary recorder: the model function handed to every optimiser records each
 evaluated parameter vector in order; the history is checked offline.
 """
 import itertools
+import os
 
 import numpy as np
 
@@ -78,13 +79,22 @@ def make_model(dadi, npar):
 
 
 class Recorder:
+    """boundary recorder of every model evaluation; `extra` positional and keyword arguments (func_args / func_kwargs of the
+    optimisers) scale and shift the spectrum, so a wrapper that drops or misplaces them changes the likelihood"""
     def __init__(self, f):
         self.f = f
         self.history = []
+        self.extras_seen = []
 
-    def __call__(self, params, ns, pts=None):
+    def __call__(self, params, ns, *extra, pts=None, **kw):
         self.history.append(np.array(params, dtype=float))
-        return self.f(params, ns, pts)
+        self.extras_seen.append((tuple(extra), tuple(sorted(kw.items()))))
+        fs = self.f(params, ns, pts)
+        if extra:
+            fs = fs * float(extra[0])
+        if "shift" in kw:
+            fs = fs + float(kw["shift"])
+        return fs
 
 
 def run(spec, rec):
@@ -100,27 +110,36 @@ def run(spec, rec):
         run_real(spec, rec, dadi)
 
 
-def call_optimiser(dadi, name, p0, data, model, lb, ub, fixed, multinom, rng):
+def call_optimiser(dadi, name, p0, data, model, lb, ub, fixed, multinom, rng, extras=None):
     """returns (xopt, reported_ll or None)"""
     from dadi import Inference
     import nlopt
     kw = dict(lower_bound=lb, upper_bound=ub, fixed_params=fixed, multinom=multinom)
+    scale = 1.0
+    if extras:
+        kw.update(func_args=list(extras["func_args"]), func_kwargs=dict(extras["func_kwargs"]))
+        if extras.get("verbose"):
+            kw["verbose"] = int(extras["verbose"])
+            if not name.startswith("opt-") and extras.get("output_file"):
+                kw["output_file"] = extras["output_file"]
+        if extras.get("ll_scale", 1) != 1 and name in ("optimize", "optimize_log", "optimize_lbfgsb", "optimize_log_lbfgsb", "optimize_cons"):
+            kw["ll_scale"] = scale = float(extras["ll_scale"])
     if name.startswith("opt-"):
         alg = nlopt.LN_BOBYQA if "bobyqa" in name else nlopt.LN_COBYLA
         x, v = Inference.opt(p0, data, model, None, algorithm=alg, log_opt=name.endswith("-log"), maxeval=150, **kw)
         return x, v
     if name == "optimize":
         out = Inference.optimize(p0, data, model, None, maxiter=8, full_output=True, **kw)
-        return out[0], -out[1]
+        return out[0], -out[1] * scale
     if name == "optimize_log":
         out = Inference.optimize_log(p0, data, model, None, maxiter=8, full_output=True, **kw)
-        return out[0], -out[1]
+        return out[0], -out[1] * scale
     if name == "optimize_lbfgsb":
         out = Inference.optimize_lbfgsb(p0, data, model, None, maxiter=60, full_output=True, **kw)
-        return out[0], -out[1]
+        return out[0], -out[1] * scale
     if name == "optimize_log_lbfgsb":
         out = Inference.optimize_log_lbfgsb(p0, data, model, None, maxiter=60, full_output=True, **kw)
-        return out[0], -out[1]
+        return out[0], -out[1] * scale
     if name == "optimize_log_fmin":
         out = Inference.optimize_log_fmin(p0, data, model, None, maxiter=60, full_output=True, **kw)
         return out[0], -out[1]
@@ -131,11 +150,12 @@ def call_optimiser(dadi, name, p0, data, model, lb, ub, fixed, multinom, rng):
         nfree = sum(1 for f_ in (fixed or [None] * len(p0)) if f_ is None)
         ieq = (lambda p, *a: np.array([1e6 - np.sum(p)]))
         out = Inference.optimize_cons(p0, data, model, None, ieq_constraint=ieq, maxiter=25, full_output=True, **kw)
-        return out[0], -out[1]
+        return out[0], -out[1] * scale
     if name == "optimize_grid":
         free = [i for i in range(len(p0)) if fixed is None or fixed[i] is None]
         grid = tuple(slice(lb[i], ub[i], complex(0, 4 if len(free) <= 2 else 3)) for i in free)
-        out = Inference.optimize_grid(data, model, None, grid, fixed_params=fixed, multinom=multinom, full_output=True)
+        gkw = dict(func_args=kw["func_args"], func_kwargs=kw["func_kwargs"]) if extras else {}
+        out = Inference.optimize_grid(data, model, None, grid, fixed_params=fixed, multinom=multinom, full_output=True, **gkw)
         return out[0], -out[1]
     raise ValueError(name)
 
@@ -196,12 +216,21 @@ def run_opt(spec, rec, dadi):
             nfree = npar - len(fx)
             if not rec.case("o%d-%d-%s" % (spec["b"], ci, oname), desc, nontrivial=nfree >= 1):
                 continue
-            tags = {"optimiser": oname, "multinom": multinom, "start": startkind, "fixed": bool(fx), "none_bounds": none_bounds}
+            # every third case: the model takes an extra positional and an extra keyword argument (func_args / func_kwargs), the
+            # likelihood is rescaled (ll_scale) where the wrapper offers it, and progress is printed to a file
+            extras = None
+            if ci % 3 == 2:
+                extras = {"func_args": [float(rng.uniform(0.5, 3))], "func_kwargs": {"shift": float(rng.uniform(0.01, 0.2))},
+                          "ll_scale": float(rng.choice([1.0, 7.0])), "verbose": int(rng.choice([0, 3])),
+                          "output_file": os.path.join(os.environ.get("VERIF_BATCH_SCRATCH", "."), "opt-%d-%d.txt" % (ci, oi))}
+                data = (data * extras["func_args"][0] + extras["func_kwargs"]["shift"]) if not multinom else \
+                    (f(ptrue, ns, None) * extras["func_args"][0] + extras["func_kwargs"]["shift"]) * float(rng.uniform(0.5, 40))
+            tags = {"optimiser": oname, "multinom": multinom, "start": startkind, "fixed": bool(fx), "none_bounds": none_bounds, "extras": extras is not None}
             site = "Inference." + (oname if not oname.startswith("opt-") else "opt")
             recm = Recorder(f)
             p0_in, lb_in, ub_in = list(p0), list(lbu), list(ubu)
             fixed_in = list(fixed) if fixed is not None else None
-            ok, res = rec.noraise("returns:" + oname, lambda: call_optimiser(dadi, oname, p0_in, data, recm, lb_in, ub_in, fixed_in, multinom, rng),
+            ok, res = rec.noraise("returns:" + oname, lambda: call_optimiser(dadi, oname, p0_in, data, recm, lb_in, ub_in, fixed_in, multinom, rng, extras),
                                   site=site, tags=tags)
             if not ok:
                 continue
@@ -212,6 +241,13 @@ def run_opt(spec, rec, dadi):
             if not hist:
                 rec.check("evaluations-within-bounds:" + oname, False, site=site, tags=tags, observed="model never evaluated")
                 continue
+            if extras is not None:
+                want = (tuple(extras["func_args"]), tuple(sorted(extras["func_kwargs"].items())))
+                rec.check("extra-arguments-passed-through:" + oname, all(e == want for e in recm.extras_seen), site=site, tags=tags,
+                          observed=recm.extras_seen[:2], expected=want)
+                if extras["verbose"] and not oname.startswith("opt-") and oname != "optimize_grid":
+                    okf = os.path.exists(extras["output_file"]) and os.path.getsize(extras["output_file"]) > 0
+                    rec.check("progress-written-to-output_file", bool(okf), site=site, tags=tags)
             start_full = np.array([fixed[i] if (fixed is not None and fixed[i] is not None) else p0[i] for i in range(npar)])
             if oname != "optimize_grid":
                 d = np.max(np.abs(hist[0] - start_full) / np.maximum(np.abs(start_full), 1e-300))
@@ -244,13 +280,14 @@ def run_opt(spec, rec, dadi):
                 sl = 1e-9 * np.maximum(1.0, np.abs(xopt))
                 legal = bool(np.all(xopt >= lo - sl) and np.all(xopt <= hi + sl))
             rec.check("returned-point-legal:" + oname, legal, site=site, tags=tags, observed=xopt, expected={"lb": lbu, "ub": ubu, "fixed": fixed})
+            fx_model = (lambda pp: f(pp, ns, None)) if extras is None else (lambda pp: f(pp, ns, None) * extras["func_args"][0] + extras["func_kwargs"]["shift"])
             if legal and reported is not None:
-                m = f(xopt, ns, None)
+                m = fx_model(xopt)
                 llx = float(Inference.ll_multinom(m, data) if multinom else Inference.ll(m, data))
                 rec.close("reported-ll-matches:" + oname, abs(llx - float(reported)) / max(abs(llx), 1.0), 1e-9, site=site, tags=tags,
                           observed={"ll_of_returned": llx, "reported": float(reported)})
                 if oname.startswith("opt-"):
-                    m0 = f(start_full, ns, None)
+                    m0 = fx_model(start_full)
                     ll0 = float(Inference.ll_multinom(m0, data) if multinom else Inference.ll(m0, data))
                     rec.check("no-worse-than-start:" + oname, llx >= ll0 - 1e-9 * max(1.0, abs(ll0)), site=site, tags=tags,
                               observed={"ll_start": ll0, "ll_returned": llx})
